@@ -1,6 +1,8 @@
 //! C18 — anti-entropy: equal digests iff equal states; a sync leaves both sides merged.
 //! Correspondence: real `KeyDigest::new`, `StateDigest::from_state`, `differs_from`,
-//! `divergent_buckets`, `AntiEntropyManager::get_keys_in_buckets` and
+//! `divergent_buckets`, `AntiEntropyManager::get_keys_in_buckets`, the message protocol
+//! (`generate_digest` / `process_peer_digest` / `create_sync_request` / `handle_sync_request` + merge of
+//! the response, bucket requests and full-state requests, both directions, several rounds) and
 //! `MultiNodeSimulation::run_anti_entropy_sync` on real `HashMap<String, ReplicatedValue>` states
 //! vs the model (`lean/RedisVerif/Model/AntiEntropy.lean`).  The model never hashes: the op lines
 //! carry the real hash values (per key, per value projection, per hashed word stream) and the
@@ -380,19 +382,191 @@ fn sync_ops(out: &mut Out, p: Pair, limit: usize, max_rounds: usize, src: &str) 
     let (a, b) = (&sim.nodes[0].replica_state.replicated_keys, &sim.nodes[1].replica_state.replicated_keys);
     let (da, db) = (digest_of(a, depth), digest_of(b, depth));
     if !last_changed && da.differs_from(&db) {
-        let (ca, cb) = (canon(a), canon(b));
         let div = da.divergent_buckets(&db);
-        let differing: Vec<&String> = ca.keys().chain(cb.keys()).filter(|k| ca.get(*k) != cb.get(*k)).collect::<BTreeSet<_>>().into_iter().collect();
+        let left = undelivered(a, b);
         let pop = a.iter().filter(|(k, v)| div.contains(&KeyDigest::new(k, v).bucket(depth))).count()
             .max(b.iter().filter(|(k, v)| div.contains(&KeyDigest::new(k, v).bucket(depth))).count());
-        if !differing.is_empty() && limit < pop {
-            out.violation("C18:sync:limit-starvation",
-                &format!("after {} round(s) with max_keys_per_sync = {} the sync stopped making progress: {} key(s) still differ, the divergent buckets hold {} keys and the same first {} are re-sent every round", rounds, limit, differing.len(), pop, limit),
-                json!({"depth": depth, "limit": limit, "rounds": rounds, "still_differing_keys": differing, "a": show_state("a", a), "b": show_state("b", b),
+        if left.is_empty() {
+            out.count("excluded:sync:non-commutative-merge-residue");
+        } else if limit < pop {
+            out.violation("C18:sync:limit-starvation:sim:divergent-population>limit",
+                &format!("run_anti_entropy_sync: after {} round(s) with max_keys_per_sync = {} the sync stopped making progress: {} key(s) undelivered, the divergent buckets hold {} keys and the same first {} are re-sent every round", rounds, limit, left.len(), pop, limit),
+                json!({"depth": depth, "limit": limit, "rounds": rounds, "undelivered_keys": left, "a": show_state("a", a), "b": show_state("b", b),
                        "iteration_order_a": a.keys().collect::<Vec<_>>(), "iteration_order_b": b.keys().collect::<Vec<_>>(), "source": src}));
-        } else if differing.is_empty() {
-            out.count("sync:fixpoint:equal-states-still-divergent-digests");
+        } else {
+            out.violation("C18:sync:sim:quiescent-not-converged",
+                "run_anti_entropy_sync stopped changing anything although the limit covers the divergent buckets and deliverable differences remain",
+                json!({"depth": depth, "limit": limit, "rounds": rounds, "undelivered_keys": left, "a": show_state("a", a), "b": show_state("b", b), "source": src}));
         }
+    }
+}
+
+
+/// keys on which the two states still differ AND a delivery would change something (a key whose
+/// two values absorb each other in both directions is a non-commutative merge residue — C07's
+/// subject — not an undelivered key)
+fn undelivered(a: &State, b: &State) -> Vec<String> {
+    let (ca, cb) = (canon(a), canon(b));
+    let keys: BTreeSet<&String> = ca.keys().chain(cb.keys()).collect();
+    let mut res = Vec::new();
+    for k in keys {
+        if ca.get(k) == cb.get(k) {
+            continue;
+        }
+        let deliverable = match (a.get(k), b.get(k)) {
+            (Some(x), Some(y)) => MRv::from_real(&x.merge(y)) != MRv::from_real(x) || MRv::from_real(&y.merge(x)) != MRv::from_real(y),
+            _ => true,
+        };
+        if deliverable {
+            res.push(k.clone());
+        }
+    }
+    res
+}
+
+/// the MESSAGE protocol between two real AntiEntropyManagers: per pull
+/// generate_digest (both) -> process_peer_digest -> create_sync_request (bucket list or full
+/// state) -> handle_sync_request -> the requester merges the response (apply_remote_delta);
+/// a round = pull a<-b, then pull b<-a; rounds until quiescence or `max_rounds`
+fn msg_ops(out: &mut Out, p: Pair, limit: usize, full: bool, max_rounds: usize, src: &str) {
+    let depth = p.depth;
+    let path = if full { "msg-full" } else { "msg-buckets" };
+    let mk = |id: u64| {
+        let mut m = AntiEntropyManager::new(ReplicaId::new(id), AntiEntropyConfig::default());
+        m.config.merkle_tree_depth = depth;
+        m.config.max_keys_per_sync = limit;
+        m
+    };
+    let mut mgrs = vec![mk(1), mk(2)];
+    let mut sts = vec![
+        ShardReplicaState::new(ReplicaId::new(1), ConsistencyLevel::Eventual),
+        ShardReplicaState::new(ReplicaId::new(2), ConsistencyLevel::Eventual),
+    ];
+    sts[0].replicated_keys = p.a;
+    sts[1].replicated_keys = p.b;
+    let mut rounds = 0;
+    let mut quiescent = false;
+    let mut over_limit_last_round = false;
+    for _ in 0..max_rounds {
+        let mut changed = false;
+        over_limit_last_round = false;
+        for ri in [0usize, 1] {
+            let pi = 1 - ri;
+            // the model is told both states in their real iteration order, and the real hashes
+            out.op("RESET".into(), "ok".into());
+            op_state(out, "a", depth, &sts[0].replicated_keys);
+            op_state(out, "b", depth, &sts[1].replicated_keys);
+            let mut w = Vec::new();
+            for i in 0..2 {
+                words_entries(&sts[i].replicated_keys, depth, &digest_of(&sts[i].replicated_keys, depth), &mut w);
+            }
+            op_words(out, &w);
+            let (pre_r, pre_p) = (sts[ri].replicated_keys.clone(), sts[pi].replicated_keys.clone());
+            let ours = mgrs[ri].generate_digest(&sts[ri].replicated_keys);
+            let theirs = mgrs[pi].generate_digest(&sts[pi].replicated_keys);
+            let (rid, pid) = (mgrs[ri].replica_id, mgrs[pi].replica_id);
+            let verdict = mgrs[ri].process_peer_digest(theirs.clone(), &ours);
+            let replay = |what: &str, extra: serde_json::Value| {
+                json!({"what": what, "path": path, "depth": depth, "limit": limit, "requester": if ri == 0 { "a" } else { "b" },
+                       "requester_before": show_state("r", &pre_r), "responder": show_state("p", &pre_p),
+                       "responder_iteration_order": pre_p.keys().collect::<Vec<_>>(), "detail": extra, "source": src})
+            };
+            let mut bad_envelope = mgrs[ri].divergent_peers.contains(&pid) != verdict.is_some();
+            let (differs, div, resp_keys) = match verdict {
+                None => (false, vec![], vec![]),
+                Some(buckets) => {
+                    let request = mgrs[ri].create_sync_request(pid, ours.clone(), if full { None } else { Some(buckets.clone()) }, 1000 * (rounds as u64 + 1));
+                    bad_envelope |= request.from_replica != rid || request.to_replica != pid || request.digest.root_hash != ours.root_hash
+                        || request.requested_buckets != if full { None } else { Some(buckets.clone()) };
+                    let response = {
+                        let (m, s) = (&mut mgrs[pi], &sts[pi].replicated_keys);
+                        m.handle_sync_request(request, s)
+                    };
+                    bad_envelope |= response.from_replica != pid || response.digest.root_hash != theirs.root_hash || !mgrs[pi].divergent_peers.contains(&rid);
+                    let keys: Vec<String> = response.deltas.iter().map(|d| d.key.clone()).collect();
+                    for d in response.deltas {
+                        bad_envelope |= d.source_replica != pid || pre_p.get(&d.key).map(MRv::from_real) != Some(MRv::from_real(&d.value));
+                        sts[ri].apply_remote_delta(d);
+                    }
+                    (true, buckets, keys)
+                }
+            };
+            let slot = if ri == 0 { "a" } else { "b" };
+            out.op(
+                format!("PULL {} {} {}", slot, full as u8, limit),
+                format!("differs={} div={} resp={} | {}", differs as u8,
+                    div.iter().map(|x| x.to_string()).collect::<Vec<_>>().join(","),
+                    resp_keys.iter().map(|k| hex(k.as_bytes())).collect::<Vec<_>>().join(","),
+                    show_state(slot, &sts[ri].replicated_keys)),
+            );
+            // ---- oracle for this pull
+            if bad_envelope {
+                out.violation(&format!("C18:sync:{}:envelope", path), "request / response envelope or divergent_peers bookkeeping is inconsistent with the digests", replay("envelope", json!({})));
+            }
+            let in_req = |k: &String| full || div.contains(&KeyDigest::new(k, &pre_p[k]).bucket(depth));
+            let pop = pre_p.keys().filter(|k| in_req(k)).count();
+            if differs {
+                out.count(&format!("{}:{}", path, if pop == 0 { "responder-has-nothing-requested" } else if pop < limit { "population<limit" } else if pop == limit { "population=limit" } else { "population>limit" }));
+                over_limit_last_round |= pop > limit;
+                let want = limit.min(pop);
+                let distinct: BTreeSet<&String> = resp_keys.iter().collect();
+                if resp_keys.len() < want {
+                    out.violation(&format!("C18:sync:{}:response-incomplete", path),
+                        &format!("handle_sync_request answered {} key(s) although the responder holds {} requested key(s) and max_keys_per_sync = {}: requested keys are withheld", resp_keys.len(), pop, limit),
+                        replay("response", json!({"requested_buckets": div, "answered": resp_keys})));
+                }
+                if resp_keys.len() > limit || distinct.len() != resp_keys.len() || resp_keys.iter().any(|k| !pre_p.contains_key(k) || !in_req(k)) {
+                    out.violation(&format!("C18:sync:{}:response-outside-request", path), "the response exceeds the limit, repeats a key, or contains a key outside the requested buckets",
+                        replay("response", json!({"requested_buckets": div, "answered": resp_keys})));
+                }
+            } else {
+                out.count(&format!("{}:in-sync", path));
+            }
+            let now_r = &sts[ri].replicated_keys;
+            let keys: BTreeSet<&String> = pre_r.keys().chain(pre_p.keys()).chain(now_r.keys()).collect();
+            for k in keys {
+                let want = if resp_keys.contains(k) {
+                    match (pre_r.get(k), pre_p.get(k)) {
+                        (Some(x), Some(y)) => Some(x.merge(y)),
+                        (None, Some(y)) => Some(y.clone()),
+                        (x, None) => x.cloned(),
+                    }
+                } else {
+                    pre_r.get(k).cloned()
+                };
+                if want.as_ref().map(MRv::from_real) != now_r.get(k).map(MRv::from_real) {
+                    out.violation(&format!("C18:sync:{}:not-merged", path), "after a pull a key does not hold merge(own, answered value) / an unanswered key changed",
+                        replay("merge", json!({"key": k, "want": want.as_ref().map(|v| MRv::from_real(v).show()), "got": now_r.get(k).map(|v| MRv::from_real(v).show())})));
+                    break;
+                }
+            }
+            changed |= canon(&pre_r) != canon(now_r);
+        }
+        rounds += 1;
+        if !changed {
+            quiescent = true;
+            break;
+        }
+    }
+    // ---- outcome of the whole exchange
+    let (a, b) = (&sts[0].replicated_keys, &sts[1].replicated_keys);
+    let left = undelivered(a, b);
+    if canon(a) == canon(b) {
+        out.count(&format!("{}:converged", path));
+    } else if left.is_empty() {
+        out.count("excluded:sync:non-commutative-merge-residue");
+    } else if !quiescent {
+        out.count(&format!("{}:round-bound-reached", path));
+    } else if over_limit_last_round {
+        let cond = if full { "state-size>limit" } else { "requested-population>limit" };
+        out.violation(&format!("C18:sync:limit-starvation:{}:{}", path, cond),
+            &format!("message protocol, {} request: after {} round(s) with max_keys_per_sync = {} nothing changes any more although {} key(s) are undelivered — the responder's first {} {} keys are answered every round", if full { "full-state" } else { "bucket" }, rounds, limit, left.len(), limit, if full { "" } else { "requested-bucket" }),
+            json!({"path": path, "depth": depth, "limit": limit, "rounds": rounds, "undelivered_keys": left, "a": show_state("a", a), "b": show_state("b", b),
+                   "iteration_order_a": a.keys().collect::<Vec<_>>(), "iteration_order_b": b.keys().collect::<Vec<_>>(), "source": src}));
+    } else {
+        out.violation(&format!("C18:sync:{}:quiescent-not-converged", path),
+            "the exchange stopped changing anything although every responder population was within the limit and deliverable differences remain",
+            json!({"path": path, "depth": depth, "limit": limit, "rounds": rounds, "undelivered_keys": left, "a": show_state("a", a), "b": show_state("b", b), "source": src}));
     }
 }
 
@@ -441,6 +615,53 @@ fn corpus(out: &mut Out, rng: &mut Rng) {
         content[3].1 = rv_lww(b"same", 1, 1);
         if a.keys().next().map(|k| k != "s3").unwrap_or(false) && b.keys().next().map(|k| k != "s3").unwrap_or(false) {
             sync_ops(out, Pair { a, b, depth: 0 }, 1, 4, "corpus: 6 keys in one bucket, key s3 divergent, limit 1");
+            break;
+        }
+    }
+    // the same through the message protocol: bucket request and full-state request
+    for full in [false, true] {
+        for _ in 0..200 {
+            let a = build(&content, rng);
+            content[3].1 = rv_lww(b"newer", 9, 2);
+            let b = build(&content, rng);
+            content[3].1 = rv_lww(b"same", 1, 1);
+            if a.keys().next().map(|k| k != "s3").unwrap_or(false) && b.keys().next().map(|k| k != "s3").unwrap_or(false) {
+                msg_ops(out, Pair { a, b, depth: 0 }, 1, full, 4, "corpus: message protocol, 6 keys in one bucket, key s3 divergent, limit 1");
+                break;
+            }
+        }
+    }
+    // (4) a responder with MORE keys than the limit, few of them requested: 12 keys, depth 2,
+    // limit 4, the (at most 4, here 3) keys of one bucket are newer on b.  The limit must apply
+    // to the ANSWER (filter, then take): every requested key is delivered in one pull, wherever
+    // it sits in the responder's iteration order.  Fresh maps until a requested key iterates
+    // after position 4 on the responder (so that take-before-filter would withhold it).
+    let bucket_of = |k: &String| KeyDigest::new(k, &rv_lww(b"x", 1, 1)).bucket(2);
+    let mut names: Vec<String> = Vec::new();
+    let mut chosen: Vec<usize> = Vec::new();
+    for prefix in 0..50 {
+        names = (0..12).map(|i| format!("m{}_{}", prefix, i)).collect();
+        let mut by_bucket: BTreeMap<usize, Vec<usize>> = BTreeMap::new();
+        for (i, k) in names.iter().enumerate() {
+            by_bucket.entry(bucket_of(k)).or_default().push(i);
+        }
+        if let Some(v) = by_bucket.values().find(|v| v.len() == 3) {
+            chosen = v.clone(); // exactly 3 divergent keys, all in one bucket
+            break;
+        }
+    }
+    let base: Vec<(String, ReplicatedValue)> = names.iter().map(|k| (k.clone(), rv_lww(b"old", 1, 1))).collect();
+    let mut newer = base.clone();
+    for i in &chosen {
+        newer[*i].1 = rv_lww(b"new", 7, 2);
+    }
+    for _ in 0..200 {
+        let (a, b) = (build(&base, rng), build(&newer, rng));
+        let late = b.keys().enumerate().any(|(pos, k)| pos >= 4 && chosen.iter().any(|i| names[*i] == *k));
+        if late && !chosen.is_empty() {
+            let p = Pair { a, b, depth: 2 };
+            digest_ops(out, rng, &p, "corpus: 12 keys, depth 2, one bucket newer on b");
+            msg_ops(out, p, 4, false, 3, "corpus: message protocol, 12 keys > limit 4, <= 4 requested keys, one of them iterates after position 4");
             break;
         }
     }
@@ -520,6 +741,21 @@ fn scenario(out: &mut Out, rng: &mut Rng, idx: u64) {
     let pop = content.len().max(other.len());
     let limit = match rng.below(6) { 0 => 1, 1 => rng.range(1, 4) as usize, 2 => pop, _ => 1000 };
     sync_ops(out, p, limit, if limit >= pop { 2 } else { 5 }, &format!("case {}: mutated copy, limit {}", idx, limit));
+
+    // (iii) the message protocol on the same contents: bucket request and full-state request,
+    // limits below / at / above the responder's population
+    for full in [false, true] {
+        if rng.chance(2, 3) {
+            let limit = match rng.below(8) { 0 => 1, 1 => 2, 2 => 5, 3 => 16, 4 => pop.max(1), 5 => (pop + 1) / 2 + 1, _ => 1000 };
+            let bound = (pop / limit.max(1) + 3).min(8);
+            let p = Pair { a: build(&content, rng), b: build(&other, rng), depth };
+            msg_ops(out, p, limit, full, bound, &format!("case {}: mutated copy, message protocol, limit {}", idx, limit));
+        }
+    }
+    if rng.chance(1, 4) {
+        let p = Pair { a: build(&content, rng), b: build(&content, rng), depth };
+        msg_ops(out, p, *rng.pick(&[1usize, 5, 1000]), rng.chance(1, 2), 2, &format!("case {}: equal states, message protocol", idx));
+    }
 }
 
 pub fn run(a: &Args) {
